@@ -54,3 +54,18 @@ brk("c05-random-key-fixed", "immutable/upload.py",
 brk("c05-none-falls-back-to-empty-secret", "immutable/upload.py",
     "        if self.convergence is not None:\n            return self._get_encryption_key_convergent()\n",
     "        if self.convergence is None:\n            self.convergence = b\"\"\n        if self.convergence is not None:\n            return self._get_encryption_key_convergent()\n")
+# ---- the directory entry point (nodemaker.py create_immutable_directory)
+brk("c05-dir-empty-secret-treated-as-not-given", "nodemaker.py",
+    "        if convergence is None:\n            convergence = self.secret_holder.get_convergence_secret()\n        packed = pack_children(children, None, deep_immutable=True)\n",
+    "        if not convergence:\n            convergence = self.secret_holder.get_convergence_secret()\n        packed = pack_children(children, None, deep_immutable=True)\n",
+    note="same as seeded/C05-8: b'' silently replaced by the node's private secret")
+brk("c05-dir-ignores-given-secret", "nodemaker.py",
+    "        if convergence is None:\n            convergence = self.secret_holder.get_convergence_secret()\n        packed = pack_children(children, None, deep_immutable=True)\n",
+    "        convergence = self.secret_holder.get_convergence_secret()\n        packed = pack_children(children, None, deep_immutable=True)\n")
+brk("c05-dir-default-secret-is-empty", "nodemaker.py",
+    "        if convergence is None:\n            convergence = self.secret_holder.get_convergence_secret()\n        packed = pack_children(children, None, deep_immutable=True)\n",
+    "        if convergence is None:\n            convergence = b\"\"\n        packed = pack_children(children, None, deep_immutable=True)\n")
+brk("c05-dir-default-secret-is-random-key", "nodemaker.py",
+    "        uploadable = Data(packed, convergence)\n        # XXX should pass reactor arg\n",
+    "        uploadable = Data(packed, convergence or None)\n        # XXX should pass reactor arg\n",
+    note="b'' turns into convergence=None (random key): equal inputs give different caps")
